@@ -339,6 +339,18 @@ def tree_case(col, rng, n=None, depth=None):
         trees.append((node, spec, desc, pure, ':base-after-deriving'))
         del trees[0]
         col.count('operator_derivations_from_a_shared_base', 4)
+    if pure and rng.random() < 0.3:
+        # copies of a tree made of M expressions only (copy, deepcopy, a pickle round trip - specs kept in configuration get copied):
+        # a copy decides like the original
+        import copy
+        import pickle
+        for how, mk in (('copy.copy', copy.copy), ('copy.deepcopy', copy.deepcopy), ('pickle', lambda x: pickle.loads(pickle.dumps(x)))):
+            made = call(mk, spec)
+            col.count('copies_of_m_expressions')
+            if made.ok:
+                trees.append((node, made.value, desc, True, ':' + how))
+            else:
+                col.count('m_expressions_that_could_not_be_copied')      # (that a combinator can be pickled is not claimed)
     for node, spec, desc, pure, suffix in trees:
         wit = {'tree': desc, 'spec': short(spec), 'style': style, 'role': suffix}
         for bits in itertools.product([0, 1], repeat=n):
